@@ -20,7 +20,7 @@ from synapgrad import nn
 from synapgrad.nn.modules import Module, Parameter, Sequential
 FIRST = %(first)r
 MAXLEN = %(maxlen)d
-NACT = 31
+NACT = 33
 
 
 class M(Module):
@@ -196,8 +196,16 @@ def %(name)s(rest: List[int]) -> bool:
         elif a == 29:
             mods[2].eval()
             for m in _reach_mods(reg, 2): training[m] = False
-        else:
+        elif a == 30:
             mods[2].a = pars[0]; _assign(reg, 2, "a", ("p", 0))
+        elif a == 31:            # deleting an attribute removes whatever registration the name held
+            try:
+                del mods[0].a
+            except AttributeError:
+                pass
+            _assign(reg, 0, "a", None)
+        else:                    # a module diamond: m2 is reachable from m0 directly and (after action 27) through m1 as well
+            mods[0].c = mods[2]; _assign(reg, 0, "c", ("m", 2))
         ok = ok and _check(mods, pars, reg, training, req, gstate)
     return ok
 
@@ -263,10 +271,10 @@ def main(tier, seed):
     t0 = time.time()
     maxlen = 2 if tier == "quick" else 3
     files = []
-    for first in range(31):
+    for first in range(33):
         name = "h_p%d" % first
         # quick: every history of length <= 2, and length <= 3 behind the (re-)registration actions
-        ml = maxlen if (tier != "quick" or first in (2, 3, 13, 27)) else 1
+        ml = maxlen if (tier != "quick" or first in (2, 3, 13, 27, 32)) else 1
         files.append((e2.write_module("c12_" + name, H % {"first": first, "maxlen": ml, "name": name}), name, "registry", first, ml))
     for first in (0, 1):
         name = "seq_p%d" % first
